@@ -14,7 +14,7 @@ PROPS = {
     'C03': {'units': ['opt', 'fuse'], 'kani': K_ANALYSIS},
     'C19': {'units': ['run19'], 'kani': K_CONTEXT},
     'C20': {'units': ['gad', 'quot', 'fri', 'periodic'], 'kani': [], 'only': {'fri': r'evaluate_polynomial|circuit_exp_by_constant|lemma_'}},
-    'C07': {'units': ['fri', 'shape', 'fold', 'fchain', 'fquery', 'openin'], 'kani': [], 'only': {'shape': r'verify_fri_circuit'}, 'exclude': r'possible (bit shift|arithmetic)'},
+    'C07': {'units': ['fri', 'shape', 'fold', 'fchain', 'fquery', 'evpts', 'openin'], 'kani': [], 'only': {'shape': r'verify_fri_circuit'}, 'exclude': r'possible (bit shift|arithmetic)'},
     'C05': {'units': ['chal'], 'kani': [], 'exclude': r'canonical_width'},
     'C06': {'units': ['bind', 'pchain'], 'kani': []},
     'C17': {'units': ['cache'], 'kani': []},
